@@ -412,6 +412,13 @@ Definition check_rate (n : nat) (P : list (list Q)) (reg : Q) (L : list (list Q)
   && q_rel tol9 obs_rate r_target
   && q_close tol9 (obs_scale * r_model) 1.
 
+(* the same without a factor certificate (composite samplers and shipped default sizes, where only the drawn Gamma is observed):
+   the rate implied by the target's quadratic form with the precision operator P (+ reg I) *)
+Definition check_rate_noL (n : nat) (P : list (list Q)) (reg : Q) (Ax b : list Q) (beta obs_rate : Q) : bool :=
+  let Preg := mat_add_diag n P reg in
+  let v := vsub Qminus Ax b in
+  q_rel tol9 obs_rate ((1 # 2) * qdotq v (qmatvecq Preg v) + beta).
+
 (* ConjugateApprox: w_i certificates for 1/sqrt((Dx)_i^2 + 1e-5), law checked: w_i^2 ((Dx)_i^2 + 1e-5) = 1 *)
 Fixpoint approx_w_ok (dx w : list Q) : bool :=
   match dx, w with
